@@ -227,3 +227,4 @@ fn c12_hasher_flow() {
         kani::cover!(!cached, "cover.uncached");
     }
 }
+
